@@ -420,6 +420,34 @@ func genC01(r *Rng, n int, tier string, emit func(Case)) {
 				e, ty = eCond(t.genBool(1), lit, eNumSrc(sp[0], sp[1])), "num"
 			}
 		}
+		if i%25 == 12 {
+			// a string literal written with escape sequences (\xHH, \uHHHH, double quotes): its VALUE is what JavaScript says -
+			// "caf\xe9" is the four characters of the word, whatever the spelling. Used where byte and UTF-16 lengths do not matter:
+			// printed, concatenated, compared with the same text from the data, case-mapped, selected.
+			words := []string{"caf\u00e9", "\u00fcber", "na\u00efve \u00e0 la", "\u00a0km", "\u00e9t\u00e9", "x\u00ffy", "\u00abq\u00bb", "plain", "tab\there", "\u00d7\u00f7", "\u65e5\u672c", "a\u0080b"}
+			w := words[t.r.Intn(len(words))]
+			sp := []string{"x", "u", "xa", "dq", "x"}[t.r.Intn(5)]
+			lit := eStrSp(w, sp)
+			t.data["w"] = w
+			t.data["w2"] = w + "!"
+			switch t.r.Intn(7) {
+			case 0:
+				e, ty = lit, "str"
+			case 1:
+				e, ty = eBin("+", lit, t.genStr(1)), "str"
+			case 2:
+				e, ty = eBin([]string{"==", "===", "!=", "!=="}[t.r.Intn(4)], lit, eId([]string{"w", "w2"}[t.r.Intn(2)])), "bool"
+			case 3:
+				// (case mapping of non-ASCII letters is outside the model's ASCII tables: concatenation of two spellings instead)
+				e, ty = eBin("+", eStrSp(w, "dq"), lit), "str"
+			case 4:
+				e, ty = eCond(eBin("==", eId("w"), lit), eStr("same"), eStr("different")), "str"
+			case 5:
+				e, ty = eCall(eDot(eArr(eStr("b"), lit, eStr("c")), "indexOf"), eId("w")), "num"
+			default:
+				e, ty = eBin("+", eBin("+", lit, t.genInt(1).e), eStrSp(w, "u")), "str"
+			}
+		}
 		emit(Case{"kind": "render", "oracle": "js-expr", "doc": []interface{}{nBuf(e, true)}, "data": t.data,
 			"ty": ty, "depth": exprDepth(e), "js": fmt.Sprint(printExprStmt(e))})
 	}
